@@ -20,10 +20,13 @@ type ShareScenario struct {
 	Scripts [][]string // per thread: "sub" "unsub" "connect" "disconnect" "next" "complete" "error"
 }
 
+// ShareOnly: no connectable scenarios (drive-share -shareonly, for ShareImplTrace.tla)
+var ShareOnly bool
+
 func GenShare(r *rand.Rand) ShareScenario {
 	kinds := []string{"publish", "behavior", "replay"}
 	sc := ShareScenario{Cfg: pipe.ShCfg{Kind: kinds[r.Intn(3)], Buf: 1 + r.Intn(2), Re: r.Intn(2) == 0, Rc: r.Intn(2) == 0, Rz: r.Intn(3) != 0}}
-	connectable := r.Intn(3) == 0
+	connectable := r.Intn(3) == 0 && !ShareOnly
 	if connectable {
 		rd := r.Intn(2) == 0
 		sc.Cfg.Rd = &rd
@@ -66,7 +69,14 @@ func RunShare(lg *rec.Log, sc ShareScenario, seed int64, pk *rec.Parker) []rec.E
 		mode = "connectable"
 	}
 	// released: every subscriber unsubscribes before the end, so with reset-on-refcount-zero the source must be released at the end
-	lg.Add(rec.Ev{E: "hdr", S: mode, B: mode == "share" && sc.Cfg.Rz})
+	b2i := func(b bool) int {
+		if b {
+			return 1
+		}
+		return 0
+	}
+	// v: the ShareConfig (ShareImplTrace!ConfOf)
+	lg.Add(rec.Ev{E: "hdr", S: mode, B: mode == "share" && sc.Cfg.Rz, V: 4*b2i(sc.Cfg.Re) + 2*b2i(sc.Cfg.Rc) + b2i(sc.Cfg.Rz)})
 	base := context.WithValue(context.Background(), rec.KeySub, true)
 	var smu sync.Mutex
 	var dests []ro.Observer[any]
@@ -105,9 +115,7 @@ func RunShare(lg *rec.Log, sc ShareScenario, seed int64, pk *rec.Parker) []rec.E
 		shared = pipe.BuildShare(sc.Cfg, src)
 	}
 	var nobs int32
-	mkObs := func(_ int) ro.Observer[any] {
-		i := int(atomic.AddInt32(&nobs, 1)) - 1 // every subscription gets its own observer id
-
+	mkObs := func(i int) ro.Observer[any] {
 		return ro.NewObserverWithContext(
 			func(ctx context.Context, v any) { lg.Add(rec.Ev{E: "recv", O: i, K: "N"}) },
 			func(ctx context.Context, err error) { lg.Add(rec.Ev{E: "recv", O: i, K: "E"}) },
@@ -148,10 +156,14 @@ func RunShare(lg *rec.Log, sc ShareScenario, seed int64, pk *rec.Parker) []rec.E
 				if pk == nil {
 					jitter(r)
 				}
-				lg.Add(rec.Ev{E: "inv", P: p, S: op})
+				oid := 0
+				if op == "sub" {
+					oid = int(atomic.AddInt32(&nobs, 1)) - 1 // every subscription gets its own observer id
+				}
+				lg.Add(rec.Ev{E: "inv", P: p, S: op, O: oid})
 				switch op {
 				case "sub":
-					sub = shared.SubscribeWithContext(base, mkObs(p))
+					sub = shared.SubscribeWithContext(base, mkObs(oid))
 				case "unsub":
 					if sub != nil {
 						sub.Unsubscribe()
